@@ -2,7 +2,7 @@
 (bounded stand-ins; never counted as proved).
 
   c17-schedules       RandomWalk / BuildSystem under every scripted success/failure schedule
-  c18-selections      build-file [ molecule ] / residue ranges, -start / -lig specs, -split, ligands
+  c18-selections      build-file [ molecule ] / residue ranges, -start / -lig specs, -split (one and several split strings), ligands
   c15-templates       template sharing, centring, virtual sites, optimisation verdict, user templates / volumes
   c11-itp-roundtrip   gen_params -> file -> polyply topology reader -> same molecule; gen_coords accepts it
 
@@ -986,77 +986,238 @@ def _set_partitions(items, kmin, kmax):
     yield from rec(0, [])
 
 
+def c18_split_check(mol, m, strings, spec):
+    """the statement, on one molecule: call split_residue(strings) and compare the result with
+    spec = {old residue name: [(new residue name, [atom names]), ...]} (one entry per split string).  After the split every atom is in exactly one
+    residue; every old residue whose name is addressed is partitioned into exactly the named new residues (each holds exactly the listed atoms of that ONE
+    old residue, carries the new name, atoms and residue node agree on the resid); residues that are not addressed keep their atoms and name; residue ids are
+    unique.  -> (finding key, text) or None"""
+    said = f"split_residue({strings})"
+    before = {}          # atom -> (resname, resid, atomname)
+    for a in mol.molecule.nodes:
+        nd = mol.molecule.nodes[a]
+        before[a] = (nd["resname"], nd["resid"], nd["atomname"])
+    old_res = {}
+    for a, (rn, rid, an) in before.items():
+        old_res.setdefault((rn, rid), set()).add(a)
+    mol.split_residue(list(strings))
+    # the residue graph after the split, as the package reports it
+    seen = {}
+    for n in mol.nodes:
+        g = mol.nodes[n].get("graph")
+        if g is None or len(g.nodes) == 0:
+            return ("c18-split-residue-without-atoms", f"molecule {m}: residue node {n} has no atoms after {said}")
+        for a in g.nodes:
+            if a in seen:
+                return ("c18-split-atom-duplicated", f"molecule {m}: atom {a} is in residues {seen[a]} and {n} after {said}")
+            seen[a] = n
+    lost = set(before) - set(seen)
+    if lost or set(seen) - set(before):
+        return ("c18-split-atom-lost", f"molecule {m}: atoms {sorted(lost)} are in no residue after {said}")
+    # expected partition: every old residue with an addressed name falls apart into the named parts, all other residues stay
+    ngroups = 0
+    for (rn, rid), members in old_res.items():
+        if rn not in spec:
+            groups = [(rn, members)]
+        else:
+            groups = [(nm, {a for a in members if before[a][2] in p}) for nm, p in spec[rn]]
+        for nm, grp in groups:
+            ngroups += 1
+            homes = {seen[a] for a in grp}
+            if len(homes) != 1:
+                return ("c18-split-part-scattered", f"molecule {m}: atoms {sorted(grp)} of new residue {nm} (old {rn}{rid}) ended in residues {sorted(homes)} after {said}")
+            home = homes.pop()
+            got_atoms = set(mol.nodes[home]["graph"].nodes)
+            if got_atoms != grp:
+                return ("c18-split-wrong-atoms", f"molecule {m}: residue {home} holds atoms {sorted((a, before[a][0] + str(before[a][1]), before[a][2]) for a in got_atoms)}, "
+                                                 f"expected exactly {sorted(grp)} ({nm} from {rn}{rid}) after {said}")
+            if mol.nodes[home]["resname"] != nm or any(mol.molecule.nodes[a]["resname"] != nm for a in grp):
+                return ("c18-split-wrong-name", f"molecule {m}: residue {home} is named {mol.nodes[home]['resname']}, expected {nm} after {said}")
+            if any(mol.molecule.nodes[a]["resid"] != mol.nodes[home]["resid"] for a in grp):
+                return ("c18-split-resid-mismatch", f"molecule {m}: atoms of residue {home} carry a different resid than the residue after {said}")
+    if len(mol.nodes) != ngroups:
+        return ("c18-split-wrong-atoms", f"molecule {m}: {len(mol.nodes)} residues after {said}, expected {ngroups}")
+    resids = [mol.nodes[n]["resid"] for n in mol.nodes]
+    if len(set(resids)) != len(resids):
+        return ("c18-split-resid-not-unique", f"molecule {m}: residue ids after {said}: {resids}")
+    missing = [n for n in mol.nodes if "build" not in mol.nodes[n] or "backmap" not in mol.nodes[n]]
+    if missing:
+        return ("c18-split-missing-build-attr", f"molecule {m}: residues {missing} have no 'build'/'backmap' attribute after {said} "
+                                                "(every other residue node of a MetaMolecule has them; the random walk and the backmapper read them)")
+    return None
+
+
 def c18_split_world(job):
     d, tag, atoms, bonds, parts, names = job
     bad = None
     try:
         top = c18_load_top(d, tag, c18_split_top_text(atoms, bonds))
         split_string = "S:" + ":".join(f"{nm}-{','.join(p)}" for nm, p in zip(names, parts))
-        new_name = {an: nm for nm, p in zip(names, parts) for an in p}
         for m, mol in enumerate(top.molecules):
-            before = {}          # atom -> (resname, resid, atomname)
-            for a in mol.molecule.nodes:
-                nd = mol.molecule.nodes[a]
-                before[a] = (nd["resname"], nd["resid"], nd["atomname"])
-            old_res = {}
-            for a, (rn, rid, an) in before.items():
-                old_res.setdefault((rn, rid), set()).add(a)
-            mol.split_residue([split_string])
-            # the residue graph after the split, as the package reports it
-            seen = {}
-            for n in mol.nodes:
-                g = mol.nodes[n].get("graph")
-                if g is None:
-                    bad = ("c18-split-residue-without-atoms", f"molecule {m}: residue node {n} has no atoms after '{split_string}'")
-                    break
-                for a in g.nodes:
-                    if a in seen:
-                        bad = ("c18-split-atom-duplicated", f"molecule {m}: atom {a} is in residues {seen[a]} and {n} after '{split_string}'")
-                    seen[a] = n
+            bad = c18_split_check(mol, m, [split_string], {"S": list(zip(names, parts))})
             if bad:
-                break
-            lost = set(before) - set(seen)
-            if lost or set(seen) - set(before):
-                bad = ("c18-split-atom-lost", f"molecule {m}: atoms {sorted(lost)} are in no residue after '{split_string}'")
-                break
-            # expected partition: every old S residue falls apart into the named parts, all other residues stay
-            for (rn, rid), members in old_res.items():
-                if rn != "S":
-                    groups = [(rn, members)]
-                else:
-                    groups = [(nm, {a for a in members if before[a][2] in p}) for nm, p in zip(names, parts)]
-                for nm, grp in groups:
-                    homes = {seen[a] for a in grp}
-                    if len(homes) != 1:
-                        bad = ("c18-split-part-scattered", f"molecule {m}: atoms {sorted(grp)} of new residue {nm} (old {rn}{rid}) ended in residues {sorted(homes)}")
-                        break
-                    home = homes.pop()
-                    got_atoms = set(mol.nodes[home]["graph"].nodes)
-                    if got_atoms != grp:
-                        bad = ("c18-split-wrong-atoms", f"molecule {m}: residue {home} holds atoms {sorted(got_atoms)}, expected exactly {sorted(grp)} ({nm} from {rn}{rid})")
-                        break
-                    if mol.nodes[home]["resname"] != nm or any(mol.molecule.nodes[a]["resname"] != nm for a in grp):
-                        bad = ("c18-split-wrong-name", f"molecule {m}: residue {home} is named {mol.nodes[home]['resname']}, expected {nm}")
-                        break
-                    if any(mol.molecule.nodes[a]["resid"] != mol.nodes[home]["resid"] for a in grp):
-                        bad = ("c18-split-resid-mismatch", f"molecule {m}: atoms of residue {home} carry a different resid than the residue")
-                        break
-                if bad:
-                    break
-            if bad:
-                break
-            resids = [mol.nodes[n]["resid"] for n in mol.nodes]
-            if len(set(resids)) != len(resids):
-                bad = ("c18-split-resid-not-unique", f"molecule {m}: residue ids after the split {resids}")
-                break
-            missing = [n for n in mol.nodes if "build" not in mol.nodes[n] or "backmap" not in mol.nodes[n]]
-            if missing and not bad:
-                bad = ("c18-split-missing-build-attr", f"molecule {m}: residues {missing} have no 'build'/'backmap' attribute after split_residue(['{split_string}']) "
-                                                       "(every other residue node of a MetaMolecule has them; the random walk and the backmapper read them)")
                 break
     except Exception as e:      # noqa: BLE001
         bad = ("c18-split-exception:" + type(e).__name__, f"{type(e).__name__}: {e}")
     return True, bad
+
+
+# ---- -split with several split strings at once (gen_coords -split a b ...) ---------------------------
+
+# residue types of the several-strings worlds: name -> (atom names, bonds inside the residue); M and T share atom names, E shares none
+C18_MS_TYPES = {"M": ("abc", (("a", "b"), ("b", "c"))), "E": ("de", (("d", "e"),)), "T": ("ab", (("a", "b"),))}
+# the ways a residue type is cut (connected parts, every atom in one part)
+C18_MS_CUTS = {"M": ((("a", "b"), ("c",)), (("a",), ("b",), ("c",)), (("a",), ("b", "c"))), "E": ((("d",), ("e",)),), "T": ((("a",), ("b",)),)}
+C18_MS_TREES = {"star4": ((0, 1), (0, 2), (0, 3)), "tbranch5": ((0, 1), (1, 2), (2, 3), (1, 4)), "tbranch6": ((0, 1), (1, 2), (2, 3), (1, 4), (4, 5))}
+C18_MS_SCHEMES = ("distinct", "shared-first", "shared-all", "own-name", "unaddressed-name", "swapped-names")
+
+
+def c18_ms_top_text(resnames, edges):
+    """one molecule type: residue i+1 has the type resnames[i]; residue edge (p, c): last atom of p bonded to the first atom of c"""
+    lines = ["[ defaults ]", "1 1 no 1.0 1.0", "", "[ atomtypes ]", "P 72.0 0.0 A 0.47 3.5", "", "[ moleculetype ]", "A 1", "", "[ atoms ]"]
+    idx, first, last, blines = 1, [], [], []
+    for resid, rn in enumerate(resnames, start=1):
+        names, rbonds = C18_MS_TYPES[rn]
+        where = {}
+        for an in names:
+            lines.append(f"{idx} P {resid} {rn} {an} {idx} 0.0 72.0")
+            where[an] = idx
+            idx += 1
+        for x, y in rbonds:
+            blines.append(f"{where[x]} {where[y]} 1 0.3 1000")
+        first.append(where[names[0]])
+        last.append(where[names[-1]])
+    for p, c in edges:
+        blines.append(f"{last[p]} {first[c]} 1 0.3 1000")
+    lines += ["", "[ bonds ]"] + blines + ["", "[ system ]", "bounded", "", "[ molecules ]", "A 1"]
+    return "\n".join(lines) + "\n"
+
+
+def c18_ms_names(scheme, order, cuts, resnames):
+    """new residue names for the split strings of the residue types `order` (cut as `cuts`) -> {type: (name per part)} or None when the scheme
+    does not apply to this molecule / would make the strings ambiguous"""
+    fresh = iter(("P", "Q", "R", "V", "W", "Y", "Z", "K", "L"))
+    out = {k: [next(fresh) for _ in cuts[k]] for k in order}
+    if scheme == "distinct":                    # (a)
+        pass
+    elif scheme == "shared-first":              # (b) one new name used by every string
+        for k in order:
+            out[k][0] = "BB"
+    elif scheme == "shared-all":                # (b) the i-th part of every string has the same name
+        for k in order:
+            out[k] = ["BB", "SC", "TP"][:len(cuts[k])]
+    elif scheme == "own-name":                  # (c) a part keeps the name of the residue that is split
+        for k in order:
+            out[k][0] = k
+    elif scheme == "unaddressed-name":          # (c) a part of every string takes the name of a residue type of the molecule that no string addresses
+        others = sorted(set(resnames) - set(order))
+        if not others:
+            return None
+        for k in order:
+            out[k][-1] = others[0]
+    elif scheme == "swapped-names":
+        # (c) a part takes the name of ANOTHER residue type that is split; only where no atom name occurs in two of the types, so that
+        # every string names the same atoms whether it is read against the old or the new residue names
+        atoms = [a for k in order for a in C18_MS_TYPES[k][0]]
+        if len(set(atoms)) != len(atoms):
+            return None
+        for i, k in enumerate(order):
+            out[k][0] = order[(i + 1) % len(order)]
+    return {k: tuple(v) for k, v in out.items()}
+
+
+def c18_ms_strings(world):
+    resnames, edges, order, cuts, names = world
+    return [f"{k}:" + ":".join(f"{nm}-{','.join(p)}" for nm, p in zip(names[k], cuts[k])) for k in order]
+
+
+def c18_ms_chunk(job):
+    """several split strings in ONE split_residue call, as gen_coords does with `-split a b`"""
+    d, tag, worlds = job
+    out = []
+    for w, world in enumerate(worlds):
+        resnames, edges, order, cuts, names = world
+        bad = None
+        try:
+            top = c18_load_top(d, f"{tag}_{w}", c18_ms_top_text(resnames, edges))
+            strings = c18_ms_strings(world)
+            spec = {k: list(zip(names[k], cuts[k])) for k in order}
+            for m, mol in enumerate(top.molecules):
+                bad = c18_split_check(mol, m, strings, spec)
+                if bad:
+                    break
+        except Exception as e:      # noqa: BLE001
+            bad = ("c18-split-exception:" + type(e).__name__, f"several split strings: {type(e).__name__}: {e}")
+        # non-trivial: at least two of the strings address a residue of the molecule
+        out.append((sum(1 for k in order if k in resnames) >= 2, bad))
+    return out
+
+
+def _c18_ms_sequences(n, types):
+    return [s for s in itertools.product(types, repeat=n) if set(s) == set(types)]
+
+
+def c18_ms_worlds(ctx):
+    """(residue names, residue edges, order of the split strings, cut per type, new names per type)"""
+    worlds, seen = [], set()
+
+    def add(resnames, edges, order, cuts, scheme):
+        names = c18_ms_names(scheme, order, cuts, resnames)
+        if names is None:
+            return
+        world = (tuple(resnames), tuple(edges), tuple(order), dict(cuts), names)
+        key = (world[0], world[1], tuple(c18_ms_strings(world)))
+        if key not in seen:
+            seen.add(key)
+            worlds.append(world)
+
+    def chain(n):
+        return tuple((i, i + 1) for i in range(n - 1))
+    first_cut = {k: v[0] for k, v in C18_MS_CUTS.items()}
+    if not ctx.thorough:
+        for n in (2, 3):                                         # every order of two names, both orders of the strings
+            for seq in _c18_ms_sequences(n, "ME"):
+                for scheme in ("distinct", "shared-first", "own-name"):
+                    for order in ("ME", "EM"):
+                        add(seq, chain(n), order, first_cut, scheme)
+        for k, seq in enumerate(_c18_ms_sequences(3, "MET")):    # every order of three names: three strings, and two strings + a name nobody addresses
+            orders = list(itertools.permutations("MET"))
+            add(seq, chain(3), orders[k], first_cut, "distinct")
+            add(seq, chain(3), orders[(k + 1) % 6], first_cut, "shared-all")
+            add(seq, chain(3), ("ME", "EM")[k % 2], first_cut, "unaddressed-name")
+        for tree, seq in (("star4", "EMMM"), ("tbranch5", "MEMME")):
+            for scheme in ("distinct", "shared-first", "own-name"):
+                add(seq, C18_MS_TREES[tree], "ME", first_cut, scheme)
+        return worlds
+    # two names: every order on chains of 2-6 x both orders of the strings x every scheme; (M, E) with two cuts of M, (M, T) share atom names
+    for n in range(2, 7):
+        for pair in ("ME", "MT"):
+            for seq in _c18_ms_sequences(n, pair):
+                for mcut in C18_MS_CUTS["M"][:2 if pair == "ME" else 1]:
+                    cuts = dict(first_cut, M=mcut)
+                    for scheme in ("distinct", "shared-first", "shared-all", "own-name", "swapped-names"):
+                        for order in (pair, pair[::-1]):
+                            add(seq, chain(n), order, cuts, scheme)
+    # three names: every order on chains of 3-5; three strings, and every choice of two strings (third name not addressed); the order of the strings and the
+    # cut of M cycle with the world counter
+    count = 0
+    for n in range(3, 6):
+        for seq in _c18_ms_sequences(n, "MET"):
+            for addressed in ("MET", "ME", "MT", "ET"):
+                schemes = ("distinct", "shared-first", "shared-all", "own-name") if len(addressed) == 3 else ("distinct", "shared-first", "unaddressed-name")
+                for scheme in schemes:
+                    perms = list(itertools.permutations(addressed))
+                    cuts = dict(first_cut, M=C18_MS_CUTS["M"][count % 3])
+                    add(seq, chain(n), perms[count % len(perms)], cuts, scheme)
+                    count += 1
+    # branched: every labelling of three trees with both names
+    for tree, edges in C18_MS_TREES.items():
+        n = 1 + max(max(e) for e in edges)
+        for seq in _c18_ms_sequences(n, "ME"):
+            for scheme in ("distinct", "shared-first", "own-name"):
+                for order in ("ME", "EM"):
+                    add(seq, edges, order, first_cut, scheme)
+    return worlds
 
 
 # ---- ligands ---------------------------------------------------------------------------------
@@ -1374,6 +1535,8 @@ def _c18_dispatch(job):
         return kind, c18_specs_chunk(payload)
     if kind == "split":
         return kind, [c18_split_world(payload)]
+    if kind == "msplit":
+        return kind, c18_ms_chunk(payload)
     if kind == "lig":
         return kind, [c18_ligand_world(payload)]
     return kind, [c18_e2e_world(payload)]
@@ -1404,6 +1567,12 @@ def run_c18(ctx, res):
                     jobs.append(("split", (d, f"p{nsplit}", atoms, bonds, parts, names[:len(parts)])))
                     descr.append([{"split": "S:" + ":".join(f"{nm}-{','.join(p)}" for nm, p in zip(names, parts)), "residue_S_bonds": bonds}])
                     nsplit += 1
+        ms_worlds = c18_ms_worlds(ctx)
+        ms_chunk = 6 if not ctx.thorough else 40
+        for c in range(0, len(ms_worlds), ms_chunk):
+            jobs.append(("msplit", (d, f"m{c}", ms_worlds[c:c + ms_chunk])))
+            descr.append([{"split": c18_ms_strings(w), "residues": "-".join(w[0]) if w[1] == tuple((i, i + 1) for i in range(len(w[0]) - 1)) else list(w[0]),
+                           "residue_edges": [list(e) for e in w[1]]} for w in ms_worlds[c:c + ms_chunk]])
         nseeds = 2 if not ctx.thorough else 8
         for w, pairs in enumerate(C18_LIGAND_WORLDS):
             for sd in range(nseeds):
@@ -1442,11 +1611,20 @@ def run_c18(ctx, res):
                  f"{counts.get('bld', 0)} files read by load_build_files.  SPECS (exhaustive): {counts.get('spec', 0)} strings = every subset of the four fields omitted x "
                  "molname in (A,B,L) x index in (0,2,3,6) x resname in (X,Y,W) x resid in (0,1,3,4) through parse_residue_spec, _find_nodes on every molecule, "
                  f"find_starting_node_from_spec.  SPLIT: {counts.get('split', 0)} worlds = every partition of a 2-4 atom residue (chain, triangle, star) into 2-3 connected named parts x 2 namings, "
-                 f"two molecule types.  LIGANDS: {len(C18_LIGAND_WORLDS)} spec pairs (fields omitted on both sides, 1-4 hosts, two definitions) x {2 if not ctx.thorough else 8} seeds through AnnotateLigands + the real "
+                 f"two molecule types; SEVERAL SPLIT STRINGS in one split_residue call (as gen_coords -split a b): {counts.get('msplit', 0)} worlds, residue types M(a-b-c), E(d-e), T(a-b; shares atom names with M), "
+                 + ("every order of M and E on linear chains of 2-3 residues x both orders of the two strings x new names (all distinct / one name shared by both strings / a part keeps the old residue name); "
+                    "every order of M, E, T on a chain of 3: three strings (all distinct / every i-th part shares a name) and two strings whose parts take the name of the residue type nobody addresses; "
+                    "a star of 4 and a T-branch of 5 x 3 namings"
+                    if not ctx.thorough else
+                    "every order of two names (M,E with two cuts of M; M,T) on linear chains of 2-6 residues x both orders of the two strings x new names (all distinct / one name shared / every i-th part shares "
+                    "a name / a part keeps the old residue name / M,E only: a part takes the name of the other split residue type); every order of M, E, T on chains of 3-5 x (three strings; each choice of two "
+                    "strings, third name not addressed) x (three strings: all distinct / one shared / all shared / own name; two strings: all distinct / one shared / a part of each takes the name of the unaddressed type), order of the strings and cut of M cycling; every labelling with M and E "
+                    "of a star of 4 and T-branches of 5 and 6 x 3 namings x both orders")
+                 + f".  LIGANDS: {len(C18_LIGAND_WORLDS)} spec pairs (fields omitted on both sides, 1-4 hosts, two definitions) x {2 if not ctx.thorough else 8} seeds through AnnotateLigands + the real "
                  f"BuildSystem + split_ligands.  AFTER -split (residue ids from 0): {len(C18_PS_STARTS)} -start specs and {len(C18_PS_LIGANDS)} -lig sets naming residue id 0 "
                  "(hosts, ligands, with and without the other fields) through split_residue, AnnotateLigands, BuildSystem, split_ligands.  PROGRAM: gen_coords with -split, -lig, -lig + [ volumes ] -> .gro"
                  + (f".  Violation classes seen (worlds): {classes}" if classes else ""))
-    res.rule = ("non-trivial iff the build file selects a proper non-empty subset of the residues / the spec omits a field / always for split and ligand worlds; "
+    res.rule = ("non-trivial iff the build file selects a proper non-empty subset of the residues / the spec omits a field / always for split and ligand worlds (several split strings: at least two of them address a residue of the molecule; worlds are distinct by molecule and strings); "
                 "options are recognised on a residue by a number unique to the directive, so the check does not depend on how the package stores an option")
     res.exhaustive = True
     res.assumptions.append("bounded: one residue = one bead in the selection topology; rw_restriction and geometry directives only")
